@@ -32,6 +32,7 @@ type Clause struct {
 	Canary   bool
 	Merged   bool // evaluate over the merged exit instead of per return site
 	Records  bool // call-history fact: assumed at call sites, nothing to prove in the function itself
+	AtStore  bool   // anchored at the n-th store to the field named Callee
 	Derive   string // derive@call: ghost conclusion assumed once the premise (Text) is proved
 	DeriveFnName string
 	DeriveFn *ssa.Function
@@ -81,6 +82,8 @@ func (ec *ExternContract) modSet() ModSet {
 			ms["P:"+m[4:]] = nil
 		case strings.HasPrefix(m, "elems arg"):
 			ms["PE:"+m[9:]] = nil
+		case strings.HasPrefix(m, "arg") && strings.Contains(m, "."):
+			ms["P:"+m[3:strings.Index(m, ".")]] = nil
 		}
 	}
 	return ms
@@ -125,7 +128,7 @@ func pkgShort(dir string) string {
 	return dir
 }
 
-var clauseRe = regexp.MustCompile(`^(requires|ensures|records|invariant|assert@call|derive@call|assume)(\[[^\]]*\])?\s+(.*)$`)
+var clauseRe = regexp.MustCompile(`^(requires|ensures|records|invariant|assert@call|assert@store|derive@call|assume)(\[[^\]]*\])?\s+(.*)$`)
 var recordsRe = regexp.MustCompile(`^[A-Z][A-Za-z0-9_]*\((\s*[A-Za-z_][A-Za-z0-9_]*\s*,?)*\)$`)
 var labelRe = regexp.MustCompile(`^([A-Za-z0-9_.\-]+):\s+(.*)$`)
 
@@ -318,7 +321,10 @@ func (cs *ContractSet) parseFile(path, pkgDir string, extern bool) {
 			}
 			kind, tags, text := m[1], parseTags(m[2]), m[3]
 			cl := &Clause{Kind: kind, Tags: tags, File: where}
-			if kind == "assert@call" || kind == "derive@call" {
+			if kind == "assert@store" {
+				cl.AtStore = true
+			}
+			if kind == "assert@call" || kind == "derive@call" || kind == "assert@store" {
 				// assert@call[tags] <callee> #n label: expr
 				f := strings.SplitN(text, " ", 3)
 				if len(f) < 3 {
